@@ -93,4 +93,57 @@ Definition c10_verdict (k : c10_case) : N :=
       (if c10_check L kind ext forced calls err then 0 else 2)
   end.
 
-Definition c10_verdicts (l : list c10_case) : list (N * N) := nonzero (map c10_verdict l).
+(* ---- Y1 (W1-C10-1 'suffix instead of filter'): second clause next to [c10_check] / [c10_verdict], which the theorems
+   of Proofs/C10_Proofs.v and the witnesses of Properties/Cxx_Audit2.v speak about and which stay as they are.
+
+   The text: "hands the handler the stored blocks in exactly stored order, BEGINNING WITH the first block at or above
+   the start block".  [eligible] describes the delivered blocks as a FILTER over all stored blocks (the two per-block
+   `continue` tests of streamReader).  The clause below states the sentence as it reads: the stored sequence is the
+   concatenation of the bundle files, each without its LEADING blocks below the bundle base (the legacy leading block
+   of the quantifier); the deliveries are a prefix of the SUFFIX of that sequence which begins at the first block at or
+   above the start block.  Nothing here is a per-block test copied from the code.
+
+   Scope: layouts whose stored numbers never go backwards ([mono_layout]: non-decreasing over the concatenation of
+   all files; equal numbers - the repeated legacy leading block - allowed).  That is the class the quantifier describes
+   ("skipped numbers", "legacy leading block below the bundle base").  On a bundle whose numbers go backwards the
+   unchanged library delivers the filtered subsequence without an error (W1-C10-1a/1b: the malformed-bundle reading,
+   judged outside the quantifier); such layouts are left to the correspondence bit ([c10_model_ok], whose reference
+   model is the filter) and to [c10_check]. *)
+Fixpoint drop_leading (base : N) (f : list blk) : list blk :=
+  match f with
+  | [] => []
+  | b :: f' => if b_num b <? base then drop_leading base f' else f
+  end.
+
+Fixpoint text_files (L : layout) (i : nat) (fs : list (list blk)) : list blk :=
+  match fs with
+  | [] => []
+  | f :: fs' => drop_leading (base_of L i) f ++ text_files L (S i) fs'
+  end.
+
+Fixpoint from_start (start : N) (l : list blk) : list blk :=
+  match l with
+  | [] => []
+  | b :: l' => if b_num b <? start then from_start start l' else l
+  end.
+
+Definition text_stream (L : layout) : list blk := from_start (l_start L) (text_files L 0 (l_files L)).
+
+Fixpoint nondecr (last : N) (l : list blk) : bool :=
+  match l with
+  | [] => true
+  | b :: l' => (last <=? b_num b) && nondecr (b_num b) l'
+  end.
+Definition mono_layout (L : layout) : bool := nondecr 0 (concat (l_files L)).
+
+Definition c10_suffix_y1 (L : layout) (calls : list (blk * N)) : bool :=
+  negb (mono_layout L) || is_prefix blk_eqb (map fst calls) (text_stream L).
+
+Definition c10_verdict_y1 (k : c10_case) : N :=
+  match k with
+  | C10Case L threads kind ext forced calls err hung bad =>
+      if hung || bad then c10_verdict k
+      else N.lor (c10_verdict k) (if c10_suffix_y1 L calls then 0 else 2)
+  end.
+
+Definition c10_verdicts (l : list c10_case) : list (N * N) := nonzero (map c10_verdict_y1 l).
